@@ -103,6 +103,7 @@ pub fn configure_walker(roots: &[PathBuf], options: &scanner::PlanOptions) -> Wa
                 .parents(true)
                 .hidden(false)      // false = include hidden files like .goreleaser.yaml, .github/, etc.
                 .add_custom_ignore_filename(".gitignore")  // Treat .gitignore as custom ignore file for non-git directories
+                .add_custom_ignore_filename(".rgignore")  // Ripgrep-specific ignore file (documented as honoured)
                 .add_custom_ignore_filename(".rnignore")  // Renamify-specific ignore file
                 .filter_entry(|e| {
                     // Exclude .git directories from being scanned
@@ -118,6 +119,7 @@ pub fn configure_walker(roots: &[PathBuf], options: &scanner::PlanOptions) -> Wa
                 .ignore(true)       // Still respect .ignore files
                 .parents(true)      // Still check parent dirs
                 .hidden(false)      // false = include hidden files
+                .add_custom_ignore_filename(".rgignore")  // Ripgrep-specific ignore file (documented as honoured)
                 .add_custom_ignore_filename(".rnignore")  // Renamify-specific ignore file
                 .filter_entry(|e| {
                     // Exclude .git directories from being scanned
